@@ -15,7 +15,7 @@ import json
 import warnings
 
 from harness import gen_expr as G
-from harness.common import CORPUS, ImplWorker, Model, Report, rng_for, sx_str, unbin
+from harness.common import CORPUS, ImplWorker, Model, Report, rng_for, sx_str, unbin, depth
 
 warnings.simplefilter("ignore")
 from typing import Annotated  # noqa: E402
@@ -117,8 +117,8 @@ def corpus_strings() -> list[str]:
 def run(tier: str, seed: int, rep: Report, model: Model) -> dict:
     rnd = rng_for("C06", seed)
     L = 3 if tier == "quick" else 4
-    n_mut = 4000 if tier == "quick" else 60000
-    n_noise = 1500 if tier == "quick" else 20000
+    n_mut = depth(tier, 4000, 60000)
+    n_noise = depth(tier, 1500, 20000)
     strings: list[str] = []
     corpus = corpus_strings()
     strings += corpus
